@@ -326,7 +326,7 @@ def inputs_schema(depth: int) -> str:
         "enum Color { RED GREEN in }\nscalar Blob\n"
         "input Leaf { a: Int!, b: String, c: Color }\n"
         "input Rec { v: Int, next: Rec, many: [Rec!], leaf: Leaf! }\n"
-        "input Names { camelCase: Int, in: String, _under: Int, copy: Boolean, json: Int!, model_config: String, Upper: Int, x1y: Int, class: Color, _req: ID!, _lead_list: [Int!]! }\n"
+        "input Names { camelCase: Int, in: String, _under: Int, copy: Boolean, json: Int!, model_config: String, Upper: Int, x1y: Int, class: Color, _req: ID!, _lead_list: [Int!]!, modelDump: Int, modelFields: String, _construct: Int }\n"
         "input Builtins { str: String, s2: String, int: Int, i2: Int!, float: Float, f2: [Float], bool: Boolean, b2: Boolean, list: [String], l2: [String!], id: ID, id2: ID }\n"
         "input Defs { i: Int = 3, ni: Int! = 4, s: String = \"x\", b: Boolean = true, f: Float = 1.5, e: Color = GREEN, ne: Color! = RED, l: [Int!] = [1, 2], n: Int = null,\n"
         "  o: Leaf = {a: 1}, req: Int!, lo: [Int] = [1, null] }\n"
